@@ -31,6 +31,7 @@ import (
 	"fmt"
 	"log"
 	"os"
+	"runtime/debug"
 	"runtime/pprof"
 	"strconv"
 	"sort"
@@ -51,6 +52,7 @@ func main() {
 	// core.Guard contains; nothing is ever printed through the log package by this binary.
 	log.SetFlags(0)
 	log.SetOutput(fatalTrap{})
+	debug.SetGCPercent(400) // millions of short-lived parses; memory is not the constraint
 	if f := os.Getenv("C10_CPUPROFILE"); f != "" { // debugging aid
 		w, err := os.Create(f)
 		if err == nil {
@@ -526,7 +528,22 @@ func checkCase(c Case, st *stats) []finding {
 					site = "log-fatal:charset-above-0xff-in-byte-mode"
 				}
 			}
-			return []finding{{"compile:crash:" + site, describe(c) + ": lex.Compile dies on a pattern ParseRegexp accepted: " + firstLine(crash.Error())}}
+			// Name the kind of construct that crashes on its own (keeps distinct causes apart).
+			family := "structure"
+			for _, a := range ref.Atoms {
+				text := c.Pattern[a.Start:a.End]
+				var are *lex.Regexp
+				var aerr error
+				aopts := lex.CharsetOptions{Fold: a.Fold, ScanBytes: c.Bytes}
+				if ac := core.Guard(func() { are, aerr = lex.ParseRegexp(text, aopts) }); ac != nil || aerr != nil {
+					continue
+				}
+				if _, _, ac := compile(are, text, c.Bytes); ac != nil {
+					family = strings.SplitN(a.Tag, "-", 2)[0]
+					break
+				}
+			}
+			return []finding{{"compile:crash:" + site + ":" + family, describe(c) + ": lex.Compile dies on a pattern ParseRegexp accepted: " + firstLine(crash.Error())}}
 		}
 		if cerr != nil {
 			if strings.Contains(cerr.Error(), "too many entities to repeat") {
@@ -577,25 +594,36 @@ func checkCase(c Case, st *stats) []finding {
 	if key := explainedByQuirk(c, opts, true, re); key != "" {
 		return []finding{{key, what}}
 	}
-	// Otherwise attribute it to the first construct that is wrong on its own.
+	// Otherwise attribute it to the first construct that is wrong on its own — without folding if
+	// it is already wrong there, so that one cause gets one key.
 	for _, a := range ref.Atoms {
 		text := c.Pattern[a.Start:a.End]
-		var are *lex.Regexp
-		var aerr error
-		aopts := lex.CharsetOptions{Fold: a.Fold, ScanBytes: c.Bytes}
-		if crash := core.Guard(func() { are, aerr = lex.ParseRegexp(text, aopts) }); crash != nil || aerr != nil {
-			continue
+		folds := []bool{false}
+		if a.Fold {
+			folds = []bool{false, true}
 		}
-		at, cerr, crash := compile(are, text, c.Bytes)
-		if crash != nil || cerr != nil {
-			continue
-		}
-		if d, _, _ := compare(a.Node, ref.Leaves, at, c.Bytes, "", newStats()); d != nil {
-			fold := ""
-			if a.Fold {
-				fold = ":fold"
+		for _, fold := range folds {
+			aref := rxparse.Parse(text, rxparse.Opts{Fold: fold, Bytes: c.Bytes}, rxparse.Quirks{})
+			if !aref.OK || len(aref.Unspecified) > 0 || aref.MaxRepeat > 16 {
+				continue
 			}
-			return []finding{{"set:" + a.Tag + fold, what + fmt.Sprintf("; already the piece %q alone differs: %s", text, d)}}
+			var are *lex.Regexp
+			var aerr error
+			aopts := lex.CharsetOptions{Fold: fold, ScanBytes: c.Bytes}
+			if crash := core.Guard(func() { are, aerr = lex.ParseRegexp(text, aopts) }); crash != nil || aerr != nil {
+				continue
+			}
+			at, cerr, crash := compile(are, text, c.Bytes)
+			if crash != nil || cerr != nil {
+				continue
+			}
+			if d, _, _ := compare(aref.Node, aref.Leaves, at, c.Bytes, "", newStats()); d != nil {
+				suffix := ""
+				if fold {
+					suffix = ":fold"
+				}
+				return []finding{{"set:" + a.Tag + suffix, what + fmt.Sprintf("; already the piece %q alone (fold=%v) differs: %s", text, fold, d)}}
+			}
 		}
 	}
 	return []finding{{"lang:structure", what}}
@@ -693,10 +721,40 @@ func run(c *core.Ctx) {
 
 	total := newStats()
 	var mu sync.Mutex
+	// Per key the simplest failing case is reported (shortest pattern, then lexicographic, then
+	// fold/bytes off first), independent of goroutine scheduling.
+	type best struct {
+		cs   Case
+		what string
+		n    int
+	}
+	bests := map[string]*best{}
+	simpler := func(a, b Case) bool {
+		if len(a.Pattern) != len(b.Pattern) {
+			return len(a.Pattern) < len(b.Pattern)
+		}
+		if a.Pattern != b.Pattern {
+			return a.Pattern < b.Pattern
+		}
+		if a.Bytes != b.Bytes {
+			return !a.Bytes
+		}
+		return !a.Fold && b.Fold
+	}
 	report := func(cs Case, fs []finding) {
+		mu.Lock()
+		defer mu.Unlock()
 		for _, f := range fs {
 			cs.Quoted = fmt.Sprintf("%+q", cs.Pattern)
-			c.Violate(f.key, f.what, cs)
+			b := bests[f.key]
+			if b == nil {
+				bests[f.key] = &best{cs: cs, what: f.what, n: 1}
+				continue
+			}
+			b.n++
+			if simpler(cs, b.cs) {
+				b.cs, b.what = cs, f.what
+			}
 		}
 	}
 	flush := func(part string, st *stats) {
@@ -849,6 +907,12 @@ func run(c *core.Ctx) {
 	runA1(firstStage+1, maxLen)
 
 	stopProfile()
+
+	for key, b := range bests {
+		for i := 0; i < b.n; i++ {
+			c.Violate(key, b.what, b.cs)
+		}
+	}
 
 	// --- evidence.
 	c.Eval(total.cases)
